@@ -427,7 +427,7 @@ pub fn check() -> PropertyCheck {
             Box::new(Pbt {
                 name: "field-pbt",
                 quick: 1_000_000,
-                thorough: 20_000_000,
+                thorough: 80_000_000,
                 strat: pbt_strat,
                 test: pbt_test,
                 max_shrink: 5000,
